@@ -192,7 +192,8 @@ func verifC06History() {
 					writeLive = false
 				}
 			case 2:
-				rec = vRecord(20, 0x0303, []byte{1})
+				// change_cipher_spec, an alert or a record of an unknown type: none of them ends or re-arms inspection
+				rec = vRecord([]byte{20, 21, 24}[vInt(0, 2)], 0x0303, []byte{1})
 			case 3:
 				rec = vRecord(23, 0x0303, vBytes(2*vInt(0, 1))) // application data, possibly with an empty fragment
 				writeLive = false
@@ -200,6 +201,9 @@ func verifC06History() {
 				rec = vRecord(22, 0x0303, vCat([]byte{8}, vU24(2), vBytes(2)))
 			case 9: // HelloRetryRequest and change_cipher_spec flushed in one Write, as crypto/tls does
 				rec = vCat(vServerHello(vHRRRandom, st.first.outer.sid), vRecord(20, 0x0303, []byte{1}))
+				if vBool() {
+					rec = vCat(vRecord(20, 0x0303, []byte{1}), vServerHello(vHRRRandom, st.first.outer.sid)) // ... or behind it
+				}
 				if writeLive {
 					hrrSeen++
 					writeLive = false
@@ -248,7 +252,7 @@ func verifC06History() {
 				sharedSeals++
 			}
 		case 6:
-			rec = vRecord(20, 0x0303, []byte{1})
+			rec = vRecord([]byte{20, 21, 24}[vInt(0, 2)], 0x0303, []byte{1})
 		case 7:
 			rec = vRecord(23, 0x0303, vBytes(2))
 		case 8:
@@ -320,4 +324,37 @@ func verifC06Concurrent() {
 	vAssert(r.err == nil, "retried hello accepted by a Read that was already blocked when the HelloRetryRequest passed")
 	vAssert(len(r.b) == 5+len(wantMsg) && vBytesEq(r.b[5:], wantMsg), "retried hello replaced by its reconstructed inner hello (reader blocked first)")
 	vReach("concurrent-retry")
+}
+
+// verifC06SecondHRR: at most one retry is processed: after a HelloRetryRequest
+// and a well-formed retried hello, a second HelloRetryRequest-shaped record
+// from the backend does not re-arm anything - a further honest hello (sealed at
+// the next sequence number) is forwarded verbatim and not decrypted.
+func verifC06SecondHRR() {
+	st, tr, c := vC06Setup()
+	hrr := vServerHello(vHRRRandom, st.first.outer.sid)
+	n, err := c.Write(hrr)
+	vAssert(err == nil && n == len(hrr), "first HelloRetryRequest forwarded")
+	rec2, want2, _, _ := vSecondHello(st, 0)
+	tr.in = append(tr.in, rec2...)
+	buf := make([]byte, 700)
+	rn, rerr := c.Read(buf)
+	vAssert(rerr == nil && rn == 5+len(want2) && vBytesEq(buf[5:rn], want2), "the retried hello is processed")
+	// the backend (or an attacker in its place) sends another HelloRetryRequest, alone or behind another record
+	before := len(tr.out)
+	second := hrr
+	if vBool() {
+		second = vCat(vRecord(20, 0x0303, []byte{1}), hrr)
+	}
+	n, err = c.Write(second)
+	vAssert(err == nil && n == len(second) && vBytesEq(tr.out[before:], second), "a second HelloRetryRequest is relayed like any record")
+	opens := vHpkeOpens()
+	rec3, _, _, _ := vSecondHello(st, 0) // honest, sealed with the next sequence number
+	tr.in = append(tr.in, rec3...)
+	rn, rerr = c.Read(buf)
+	vAssert(rerr == nil && rn == len(rec3) && vBytesEq(buf[:rn], rec3), "a hello after a second HelloRetryRequest is forwarded verbatim")
+	if vSymbolic() {
+		vAssert(vHpkeOpens() == opens, "at most one retry is processed: nothing is decrypted any more")
+	}
+	vReach("second-hrr")
 }
